@@ -19,7 +19,9 @@ DATASETS = {
 }
 # inside-range pressure grids (P_MIN, DELTA_P, NTV): max desired pressure <= half the reachable pressure
 INSIDE = {"p0": (0, 1.0, 41), "p1": (-2, 0.5, 81), "p2": (5, 0.25, 121), "p3": (0, 0.3, 161)}
-TGRIDS = {"hot": dict(T_MIN=0, NT=4, DT=4000, DT_SAMPLE=4000), "t0": dict(T_MIN=0, NT=4, DT=600, DT_SAMPLE=600), "t1": dict(T_MIN=300, NT=3, DT=1200, DT_SAMPLE=1200), "t2": dict(T_MIN=0, NT=2, DT=50, DT_SAMPLE=50)}
+TGRIDS = {"hot": dict(T_MIN=0, NT=4, DT=4000, DT_SAMPLE=4000),
+          # square (T,V) grids: qha appends 4 guard temperatures, so NT + 4 == NTV for the pressure grids p0 (41) and p1 (81)
+          "sq41": dict(T_MIN=0, NT=37, DT=60, DT_SAMPLE=60), "sq81": dict(T_MIN=50, NT=77, DT=30, DT_SAMPLE=30), "t0": dict(T_MIN=0, NT=4, DT=600, DT_SAMPLE=600), "t1": dict(T_MIN=300, NT=3, DT=1200, DT_SAMPLE=1200), "t2": dict(T_MIN=0, NT=2, DT=50, DT_SAMPLE=50)}
 AVERAGES = ["bulk_modulus_voigt", "bulk_modulus_reuss", "bulk_modulus_voigt_reuss_hill", "shear_modulus_voigt",
             "shear_modulus_reuss", "shear_modulus_voigt_reuss_hill", "primary_velocities", "secondary_velocities"]
 
@@ -228,12 +230,13 @@ def overshoot_cases():
 
 
 def explore(ctx):
-    ctx.rule = ("3 synthetic data sets x 3 temperature grids x 4 inside pressure grids (max requested <= reach/2): every modulus "
+    ctx.rule = ("3 synthetic data sets x 3 temperature grids x 4 inside pressure grids (+ square (T,V) grids with NT+4 == NTV) (max requested <= reach/2): every modulus "
                 "(adiabatic, isothermal, attribute spellings), compliances, 6 averages, 2 velocities and V at every (T,P) node vs an "
                 "independent cubic spline along the isotherm; pressure round trip; exact conversion of cubic-in-P fields; plus 60 "
                 "overshooting grids (max requested >= 2x reach) and 6 grids whose maximum lies between the reach of the coldest and the hottest isotherm, all of which must be rejected; complete in both tiers; non-trivial = >10 quantities checked")
     ctx.assumptions = ["qha's P(T,V) and V(T,P) are trusted as a library", "tolerance: 25% of the local cell variation (DESIGN §5)"]
-    inside = [{"data": dname, "tgrid": tg, "pgrid": pg} for dname in DATASETS for tg in TGRIDS if tg != "hot" for pg in INSIDE]
+    inside = [{"data": dname, "tgrid": tg, "pgrid": pg} for dname in DATASETS for tg in TGRIDS if tg not in ("hot", "sq41", "sq81") for pg in INSIDE]
+    inside += [{"data": dname, "tgrid": tg, "pgrid": pg} for dname in ("A", "C") for tg, pg in (("sq41", "p0"), ("sq81", "p1"))]
     res = ctx.run(MOD, "run_case", inside, part="inside-grids", chunksize=1)
     ctx.notes["grid_nodes_checked"] = sum(r.get("nodes", 0) for r in res)
     ctx.run(MOD, "run_case", overshoot_cases(), part="overshooting-grids", chunksize=1)
